@@ -858,14 +858,181 @@ static void gen_main(int fi, visit_fn visit) {
     }
 }
 
-/* ------------------------------------------------------------------ driver */
 static long g_skip_below;
+
+/* ================================================================== overlap mode (C07)
+ * Both operands live in slot 0: src = dest + delta elements.  All facts the oracle needs (existing dest
+ * string length, source length, elements read / written by a correct execution) are derived from the
+ * pre-call memory image, so the zones below are those of the property statement:
+ *   A  dest[0..dmax) and the source elements read are disjoint        -> must behave as without overlap
+ *   B  elements written and elements read intersect                   -> must fail, dest cleared
+ *   Cz objects overlap, written/read sets do not                      -> exact result OR overlap error with dest cleared
+ * memmove family: every placement must equal a copy through a temporary. */
+typedef struct { size_t dm, L, slen, dl; long delta; int bos; } ovl_t;
+
+static void witness_ovl(const desc_t *d, const ovl_t *o, long idx, const char *obs) {
+    g_wit[0] = 0;
+    sb_add(g_wit, sizeof g_wit, "{\"harness\":\"engine\",\"cfg\":\"%s\",\"fn\":\"%s\",\"mode\":1,\"idx\":%ld,\"seed\":%llu,\"dmax_el\":%zu,\"srclen\":%zu,\"slen\":%zu,"
+           "\"destlen\":%zu,\"delta\":%ld,\"bos\":%d,\"ret\":\"%s\",\"hcount\":%d,\"obs\":\"%s\",\"replay\":\"engine --cfg %s --mode 1 --fn %s --idx %ld --seed %llu --tier %s\"}",
+           g_cfg, d->name, idx, (unsigned long long)g_seed, o->dm, o->L, o->slen, o->dl, o->delta, o->bos, errname(C.ret), g_h.count, obs,
+           g_cfg, d->name, idx, (unsigned long long)g_seed, g_tier ? "thorough" : "quick");
+}
+
+static void run_overlap_case(const desc_t *d, const ovl_t *o, long idx) {
+    int ew = d->ew; int strsrc = (d->fl & F_STRSRC) != 0; int has_slen = d->sunit != 0;
+    int cat = d->fam == FAM_CAT || d->fam == FAM_NCAT;
+    size_t src_obj_el = strsrc ? o->L + 1 : (o->slen ? o->slen : 1);
+    if (d->fam == FAM_MEMCCPY) src_obj_el = o->L + 1 > o->slen ? o->L + 1 : o->slen;
+    /* place the pair end-flush: the operand that ends last ends at the guard */
+    long d_lo = 0, d_hi = (long)o->dm, s_lo = o->delta, s_hi = o->delta + (long)src_obj_el;
+    long lo = d_lo < s_lo ? d_lo : s_lo, hi = d_hi > s_hi ? d_hi : s_hi;
+    uint8_t *base = slot_end(0) - (size_t)(hi - lo) * ew;       /* element offset `lo` lives at base */
+    uint8_t *D = base + (size_t)(d_lo - lo) * ew, *S = base + (size_t)(s_lo - lo) * ew;
+    uint64_t cs = mix64(g_seed * 7919 + (uint64_t)idx);
+    arena_canary();
+    fill_garbage(base, (size_t)(hi - lo) * ew, cs);
+    /* dest content */
+    if (cat) { for (size_t i = 0; i < o->dl && i < o->dm; i++) setel(D, i, ew, 'A' + (uint32_t)(i % 26)); if (o->dl < o->dm) setel(D, o->dl, ew, 0); }
+    /* source content (written last: it wins where the operands overlap) */
+    for (size_t i = 0; i < src_obj_el; i++) setel(S, i, ew, 'a' + (uint32_t)((i + (cs & 7)) % 26));
+    if (strsrc) setel(S, o->L, ew, 0);
+    long stopc = -1;
+    if (d->fam == FAM_MEMCCPY) { stopc = 0x7e; if (o->L < src_obj_el) S[o->L] = (uint8_t)stopc; }
+    memset(&C, 0, sizeof C);
+    C.out = place_end(2, sizeof(errno_t)); *(errno_t *)C.out = 0x5a5a5a5a;
+    C.dest = D; C.src = S; C.dmax = o->dm * ew / d->dunit; C.slen = has_slen ? o->slen * ew / d->sunit : 0; C.val = stopc;
+    C.destbos = o->bos ? o->dm * ew : BOS_UNKNOWN; C.srcbos = (o->bos && (d->fl & F_SRCBOS)) ? src_obj_el * ew : BOS_UNKNOWN;
+    /* ---- facts from the pre-call image */
+    size_t dm = o->dm, dl = 0, Ls = 0, k = 0, rd = 0, wlo = 0, whi = 0; int fits = 1, dunterm = 0, srcbosviol = 0;
+    static uint8_t img[SLOT_BYTES], want_img[SLOT_BYTES];
+    size_t regb = (size_t)(hi - lo) * ew;
+    memcpy(img, base, regb);
+    const uint8_t *iD = img + (D - base), *iS = img + (S - base);
+    if (cat) { dl = elnlen(iD, dm, ew); if (dl == dm) dunterm = 1; }
+    if (strsrc) { Ls = elnlen(iS, (size_t)((img + regb) - iS) / ew, ew); }
+    if (o->bos && (d->fl & F_SRCBOS) && has_slen && o->slen > src_obj_el) srcbosviol = 1;
+    switch (d->fam) {
+    case FAM_CPY: case FAM_CAT: k = Ls; rd = Ls + 1; break;
+    case FAM_NCPY: case FAM_NCAT: k = o->slen < Ls ? o->slen : Ls; rd = o->slen <= Ls ? o->slen : Ls + 1; break;
+    case FAM_MEMCPY: case FAM_MEMMOVE: case FAM_FLD: case FAM_FLDOUT: k = o->slen; rd = o->slen; break;
+    case FAM_FLDIN: k = o->slen < Ls ? o->slen : Ls; rd = o->slen <= Ls ? o->slen : Ls + 1; break;
+    case FAM_MEMCCPY: { size_t i; for (i = 0; i < o->slen; i++) if (iS[i] == (uint8_t)stopc) break; k = i < o->slen ? i + 1 : o->slen; rd = k; break; }
+    default: return;
+    }
+    int is_str = d->fam <= FAM_NCAT;
+    if (is_str) { fits = dl + k < dm; wlo = dl; whi = fits ? dl + k + 1 : dm; }
+    /* field copies: the elements written on behalf of the copy are the k copied ones (+ terminator for fldout);
+       filling the rest of the field with nulls is slack treatment, as for the string functions */
+    else if (d->fam == FAM_FLD || d->fam == FAM_FLDIN) { fits = o->slen <= dm; wlo = 0; whi = fits ? k : dm; }
+    else if (d->fam == FAM_FLDOUT) { if (o->slen == dm) return; /* slen == dmax: truncation vs ESNOSPC is not documented */ fits = o->slen < dm; wlo = 0; whi = fits ? k + 1 : dm; }
+    else if (d->fam == FAM_MEMCCPY) { fits = o->slen <= dm && !(k == o->slen && k == dm && (k == 0 || iS[k - 1] != (uint8_t)stopc)); wlo = 0; whi = k < dm ? k : dm; }
+    else { fits = k <= dm; wlo = 0; whi = fits ? k : dm; }
+    if (has_slen && o->slen == 0) return;                 /* zero-length requests: no copying, nothing to decide */
+    if (dunterm || srcbosviol) return;                     /* other violations dominate: covered by the main mode */
+    long r_lo = o->delta, r_hi = o->delta + (long)rd;     /* elements read, relative to dest */
+    int obj_disjoint = r_hi <= 0 || r_lo >= (long)dm || rd == 0;
+    int wr_rd_meet = !(r_hi <= (long)wlo || r_lo >= (long)whi) && rd > 0 && whi > wlo;
+    /* reading the existing dest string while concatenating: the scan of dest[0..dl] is a read of dest, not of the source */
+    const char *zone = obj_disjoint ? "A-disjoint" : wr_rd_meet ? "B-written-meets-read" : "C-objects-overlap-only";
+    /* expected image for an exact result (copy through a temporary) */
+    memcpy(want_img, img, regb);
+    uint8_t *wD = want_img + (D - base);
+    if (fits) {
+        static uint8_t tmp[SLOT_BYTES];
+        memcpy(tmp, iS, (k + 1) * ew <= SLOT_BYTES ? (k + 1) * ew : SLOT_BYTES);
+        if (is_str) { memcpy(wD + dl * ew, tmp, k * ew); memset(wD + (dl + k) * ew, 0, ew); }
+        else if (d->fam == FAM_FLD || d->fam == FAM_FLDIN || d->fam == FAM_FLDOUT) { memcpy(wD, tmp, k * ew); memset(wD + k * ew, 0, (dm - k) * ew); }
+        else memcpy(wD, tmp, k * ew);
+    }
+    size_t cmp_b = is_str ? (dl + k + 1) * ew : (d->fam == FAM_FLD || d->fam == FAM_FLDIN || d->fam == FAM_FLDOUT) ? dm * ew : k * ew;
+
+    arena_snapshot(); probes_reset(); C.ret = -999; C.retp = NULL;
+    g_shm->in_call = 1; FENCED(d->call(&C)); g_shm->in_call = 0;
+    K[K_CALLS]++; K[K_C07]++;
+    char key[300], what[500], obs[220];
+    {   char b[200]; snprintf(b, sizeof b, "%s;ovl;%s;dm=%s;fits=%d;bos=%d;%s>%s", d->name, zone, szcls(dm), fits, o->bos, o->delta < 0 ? "src-below" : o->delta == 0 ? "same" : "src-above", g_fence.faulted ? "fault" : errname(C.ret));
+        distinct_add(hash_str(b)); }
+    if (g_fence.faulted) {
+        snprintf(obs, sizeof obs, "%s fault at %#lx (dest=%p src=%p slot end=%p)", g_fence.is_write ? "WRITE" : "READ", (unsigned long)g_fence.addr, (void *)D, (void *)S, (void *)slot_end(0));
+        if (want("C07")) { snprintf(key, sizeof key, "%s|ovl-ran-past-operand|%s|%s", d->name, g_fence.is_write ? "W" : "R", zone);
+            snprintf(what, sizeof what, "%s with overlapping placement runs past an operand: %s", d->name, obs); witness_ovl(d, o, idx, obs); report("C07", key, what, g_wit); }
+        if (g_fence.is_write && want("C01")) { snprintf(key, sizeof key, "%s|ovl-W-fault|%s|%s", d->name, zone, g_cfg); snprintf(what, sizeof what, "%s stores outside the declared destination (overlapping placement): %s", d->name, obs); witness_ovl(d, o, idx, obs); report("C01", key, what, g_wit); }
+        if (!g_fence.is_write && want("C02")) { snprintf(key, sizeof key, "%s|ovl-R-fault|%s", d->name, zone); snprintf(what, sizeof what, "%s reads outside the declared extents (overlapping placement): %s", d->name, obs); witness_ovl(d, o, idx, obs); report("C02", key, what, g_wit); }
+        return;
+    }
+    if (!want("C07")) return;
+    int success = C.ret == 0;
+    int exact = success && memcmp(D, wD, cmp_b) == 0;
+    /* "report the overlap error with dest cleared": all dmax elements for ESOVRLP in the default build (C04's late-failure
+       clause), first element zero otherwise */
+    int cleared = 1; { size_t n = (C.ret == ESOVRLP && !g_noslack) ? dm : 1; for (size_t i = 0; i < n; i++) if (getel(D, i, ew)) { cleared = 0; break; } }
+    const char *rule = NULL;
+    if (d->fam == FAM_MEMMOVE) {
+        if (fits && !exact) rule = success ? "memmove-differs-from-copy-through-temporary" : "memmove-rejected-valid-placement";
+    } else if (obj_disjoint) {
+        if (C.ret == ESOVRLP) rule = "disjoint-operands-rejected-as-overlapping";
+        else if (fits && !success) rule = "disjoint-operands-failed";
+        else if (fits && !exact) rule = "disjoint-operands-wrong-result";
+        else if (!fits && success) rule = "disjoint-operands-success-although-no-space";
+    } else if (o->delta == 0 && (d->fl & F_SAMEOK)) {
+        /* identical pointers, documented as accepted: success must leave the data intact; an overlap error is accepted too */
+        if (success && fits && memcmp(D, iD, (is_str ? (k + 1) : k) * ew)) rule = "identical-pointers-data-changed";
+        else if (!success && !cleared) rule = "failed-without-clearing-dest";
+    } else if (wr_rd_meet) {
+        if (success) rule = exact ? "overlap-not-reported(result-happens-to-be-exact)" : "silently-corrupted-copy";
+        else if (!cleared) rule = "failed-without-clearing-dest";
+    } else {
+        if (success && fits && !exact) rule = "silently-corrupted-copy";
+        else if (success && !fits) rule = "success-although-no-space";
+        else if (!success && !cleared) rule = "failed-without-clearing-dest";
+    }
+    if (rule) {
+        snprintf(key, sizeof key, "%s|%s|%s|%s|%s|%s", d->name, rule, zone, o->delta < 0 ? "src-below" : o->delta == 0 ? "same" : "src-above", o->bos ? "bos=exact" : "bos=unknown", g_cfg);
+        snprintf(obs, sizeof obs, "ret=%s dmax=%zu destlen=%zu srclen=%zu slen=%zu delta=%ld read=[%ld,%ld) written=[%zu,%zu) fits=%d exact=%d cleared=%d",
+                 errname(C.ret), dm, dl, Ls, o->slen, o->delta, r_lo, r_hi, wlo, whi, fits, exact, cleared);
+        snprintf(what, sizeof what, "%s: %s (%s)", d->name, rule, obs);
+        witness_ovl(d, o, idx, obs); report("C07", key, what, g_wit);
+    }
+    if (g_verbose) { witness_ovl(d, o, idx, "verbose"); printf("%s zone=%s\n", g_wit, zone); }
+    if (g_samples_emitted < 4 && (idx % 4099) == (long)(g_seed % 4099)) { witness_ovl(d, o, idx, zone); emit_sample(g_wit); g_samples_emitted++; }
+}
+
+static void gen_overlap(int fi) {
+    const desc_t *d = &D[fi];
+    if (d->fam > FAM_FLDOUT) return;
+    int has_slen = d->sunit != 0, cat = d->fam == FAM_CAT || d->fam == FAM_NCAT, strsrc = (d->fl & F_STRSRC) != 0;
+    size_t maxdm = g_tier ? 24 : 9;
+    long idx = 0; ovl_t o;
+    for (int pass = 0; pass < 2; pass++)          /* pass 0: the complete small lattice; pass 1: sizes across 0x20 */
+    for (size_t dm = pass ? 30 : 1; dm <= (pass ? (g_tier ? 40 : 34) : maxdm); dm += pass ? (g_tier ? 1 : 2) : 1)
+    for (size_t L = 0; L <= (pass ? dm + 1 : dm + 2); L += pass ? (dm / 3 + 1) : 1)
+    for (int sv = 0; sv < (has_slen ? 5 : 1); sv++)
+    for (int dv = 0; dv < (cat ? 3 : 1); dv++)
+    for (int bos = 0; bos < 2; bos++) {
+        size_t slen = 0;
+        if (has_slen) { size_t c[5] = {1, L ? L - 1 : 2, L, L + 1, dm}; slen = c[sv]; if (slen == 0) continue; if (!strsrc && sv != 2) continue; }
+        if (!strsrc) slen = L ? L : 1;
+        size_t dl = 0; if (cat) { size_t c[3] = {0, 1, dm > 2 ? dm - 2 : 0}; dl = c[dv]; if (dv && dl == c[dv - 1]) continue; }
+        size_t span = dm + (strsrc ? L + 1 : slen);
+        for (long delta = -(long)span; delta <= (long)span; delta++) {
+            long my = idx++;
+            if (g_only_idx >= 0 ? my != g_only_idx : (my % g_nw) != g_wid) continue;
+            if (my < g_skip_below) continue;
+            if (!g_tier && pass == 1 && (my % 3)) continue;
+            o.dm = dm; o.L = L; o.slen = slen; o.dl = dl; o.delta = delta; o.bos = bos;
+            g_shm->cur = my;
+            run_overlap_case(d, &o, my);
+        }
+    }
+}
+
+/* ------------------------------------------------------------------ driver */
 static void visit(const desc_t *d, scn_t *s) { if (s->idx < g_skip_below) return; run_one(d, s); }
 static void body(void *arg, long lo, long hi) {
     int fi = *(int *)arg; (void)hi;
     /* scenarios are re-generated deterministically; indices below lo were already executed */
     g_skip_below = lo;
-    gen_main(fi, visit);
+    if (g_mode == 1) gen_overlap(fi); else gen_main(fi, visit);
     for (int i = 0; i < K_NUM; i++) __sync_fetch_and_add(&CTR(i), K[i]);
     distinct_emit();
 }
